@@ -1,16 +1,103 @@
 import PyamgV.Props.Restate
-import PyamgV.Proofs.PCG
-import PyamgV.Proofs.CGKrylov
-import PyamgV.Proofs.KrylovSim
-import PyamgV.Proofs.Petrov
+import PyamgV.Proofs.C07Vec
+import PyamgV.Model.C07Example
 import PyamgV.Proofs.GmresGivens
 import PyamgV.Proofs.ArnoldiStep
 
-/-! # C07 — Krylov iterates are the optimal elements of the Krylov space -/
-namespace PyamgV.Props.C07
+/-! # C07 — Krylov iterates are the optimal elements of the Krylov space
 
+Models: `Model/C07Krylov.lean` — the loop bodies of `_cg.py`, `_cr.py`, `_cgne.py`, `_cgnr.py`,
+`_steepest_descent.py`, `_minimal_residual.py` (alpha, beta, direction updates, periodic
+recomputation of the residual, side of the preconditioner), written once over an abstract record
+of vector operations.  The correspondence run executes them on `Vector Rat n` (`vecOps`, op
+`c07_iter`) and compares the iterates with the callback log of the real solvers.  The first block of
+theorems is about **exactly those definitions on exactly that instance** (`cgVec`, `crVec`,
+`cgneVec`, `cgnrVec`, `sdStep`, `mrStep` with `vecOps`), over any ordered field (`Rat` included):
+they are carried onto the abstract sequences of `Proofs/PCG.lean` / `KrylovSim.lean` by
+`Proofs/C07Refine.lean` (module instance, `r = b − A x` invariant for the periodic recomputation)
+and `Proofs/C07Vec.lean` (every `Vector` operation commutes with `toFn`).
+The GMRES family is covered at the algorithmic level only (abstract Arnoldi data + Givens sweep). -/
+namespace PyamgV.Props.C07
+open PyamgV
+
+/-! ### theorems about the executable recurrence models (the definitions the driver runs) -/
+
+/-- CG (`_cg.py`, any symmetric `M`): `A` symmetric positive definite, no breakdown before step `k` ⇒
+iterate `k` lies in `x₀ + K_k(MA, M r₀)` and minimises the energy norm of the error over it -/
+restate cg_optimal := PyamgV.C07.cg_vec_optimal
+/-- … hence the energy norm of the error is non-increasing from iterate `k` to `k+1` -/
+restate cg_monotone := PyamgV.C07.cg_vec_monotone
+/-- … and an `n × n` system is solved exactly after at most `n` steps (`M` positive definite) -/
+restate cg_solves_within_n_steps := PyamgV.C07.cg_vec_solves
+/-- CGNR (`_cgnr.py`): iterate `k` minimises `‖b − A x‖₂` over `x₀ + K_k(M AᵀA, M Aᵀ r₀)` -/
+restate cgnr_optimal := PyamgV.C07.cgnr_vec_optimal
+/-- CGNE (`_cgne.py`): iterate `k` minimises `‖x* − x‖₂` over `x₀ + Aᵀ K_k(M A Aᵀ, M r₀)` -/
+restate cgne_optimal := PyamgV.C07.cgne_vec_optimal
+/-- CR (`_cr.py`) without preconditioner: iterate `k` minimises `‖b − A x‖₂` over `x₀ + K_k(A, r₀)` -/
+restate cr_optimal := PyamgV.C07.cr_vec_optimal
+/-- steepest descent: every step is the exact line search for the energy norm of the error along `M r` -/
+restate sd_exact_line_search := PyamgV.C07.sd_vec_step_optimal
+/-- minimal residual: every step is the exact line search for `‖M(b − A x)‖₂` along `M r` -/
+restate mr_exact_line_search := PyamgV.C07.mr_vec_step_optimal
+
+/-! ### the links: model ⇄ abstract sequence (including the periodic `r = b − A x` recomputation) -/
+restate cg_model_is_pcg := PyamgV.C07.cg_refines
+restate cgnr_model_is_nrSeq := PyamgV.C07.cgnr_refines
+restate cgne_model_is_neSeq := PyamgV.C07.cgne_refines
+restate cr_model_is_crSeq := PyamgV.C07.cr_refines
+restate vector_model_is_module_model := PyamgV.C07.cg_iter_hom
+/-- CGNR reaches the exact solution within `dim V` steps (module-level model) -/
+restate cgnr_solves_within_n_steps := PyamgV.C07.cgnr_model_solves
+
+/-! ### abstract theory the above rests on (restated) -/
 restate pcg_optimal_krylov := PyamgV.PCG.pcg_optimal_krylov
 restate pcg_monotone := PyamgV.PCG.pcg_monotone
-restate cg_solves := PyamgV.cg_solves
+/-- new: finite termination of *preconditioned* CG -/
+restate pcg_solves := PyamgV.PCG.pcg_solves
+restate petrov_optimal := PyamgV.petrov_optimal
+restate petrov_monotone := PyamgV.petrov_monotone
+restate line_search_orth := PyamgV.line_search_orth
+
+/-! ### GMRES (both orthogonalisations) and FGMRES, algorithmic level
+orthonormal Arnoldi basis + Arnoldi relation + unit Givens rotations zeroing the subdiagonal +
+solved triangular system ⇒ `x₀ + Σ y_j z_j` minimises the (preconditioned) residual norm over
+`x₀ + span{z_j}` (`z_j = v_j`, `B = MA` for GMRES; `z_j = M_j v_j`, `B = A` for FGMRES) -/
+restate gmres_optimal_of_givens := PyamgV.Gmres.gmres_optimal_of_givens
+restate gmres_optimal_of_qr := PyamgV.Gmres.gmres_optimal_of_qr
+/-- one modified Gram–Schmidt pass keeps the Arnoldi invariant (orthonormality + relation), also at breakdown -/
+restate arnoldi_mgs_step_invariant := PyamgV.GS.arnoldiStep_inv
+
+/-! ### non-vacuity: a concrete 2 × 2 system satisfies every hypothesis of `cg_optimal`, and the
+executable model does on it what the theorems say (two steps solve the system) -/
+section example2
+open PyamgV.C07 PyamgV.C07.Ex
+
+example : IsSymm A₀ := by
+  intro i j; fin_cases i <;> fin_cases j <;> rfl
+example : IsSymm M₀ := by
+  intro i j; fin_cases i <;> fin_cases j <;> rfl
+example : IsPD A₀ := by
+  intro v hv
+  have hne : v 0 ≠ 0 ∨ v 1 ≠ 0 := by
+    by_contra h
+    push_neg at h
+    exact hv (funext fun i => by fin_cases i <;> simp [h.1, h.2])
+  have key : (dotForm Rat 2).a (linOf A₀ v) v = (v 0 + v 1) ^ 2 + v 0 ^ 2 + 2 * v 1 ^ 2 := by
+    simp [dotForm_a, linOf, matOf, A₀, Matrix.mulVec, dotProduct, Fin.sum_univ_two]
+    ring
+  rw [key]
+  rcases hne with h | h
+  · have := pow_pos (lt_of_le_of_ne (abs_nonneg _) (Ne.symm (abs_ne_zero.mpr h))) 2
+    have h2 : 0 < v 0 ^ 2 := by rwa [sq_abs] at this
+    positivity
+  · have := pow_pos (lt_of_le_of_ne (abs_nonneg _) (Ne.symm (abs_ne_zero.mpr h))) 2
+    have h2 : 0 < v 1 ^ 2 := by rwa [sq_abs] at this
+    positivity
+/-- the executable model, evaluated by the kernel on this instance: no breakdown in the first two steps,
+the second iterate is the exact solution `(3/5, -1/5)` (the sequence is the `cgVec` of the theorems) -/
+example : (cgVec A₀ M₀ b₀ z₀ 0).rz ≠ 0 ∧ (cgVec A₀ M₀ b₀ z₀ 1).rz ≠ 0 ∧
+    (cgVec A₀ M₀ b₀ z₀ 1).x ≠ (cgVec A₀ M₀ b₀ z₀ 2).x ∧
+    (cgVec A₀ M₀ b₀ z₀ 2).x = #v[3/5, -1/5] ∧ vmv A₀ (#v[3/5, -1/5] : Vector Rat 2) = b₀ := cg_two_steps
+end example2
 
 end PyamgV.Props.C07
